@@ -5,7 +5,9 @@ from .C19 import BASE
 
 RULE = ("EVERY interleaving of two concurrent ClaimAffinity calls of two hosts on one block with <= 1 crash at any store call "
         "(440 complete schedules enumerated by TLC; three claimers in the thorough tier), plus TLC walks with claim / ReleaseAffinity "
-        "(mustBeEmpty or not) / auto-assign of 3 clients (two on one host) on one block with a crash and a conflict, plus seeded "
+        "(mustBeEmpty or not) / auto-assign of 3 clients on 3 hosts on one block with a crash and a conflict (thorough tier), 42 directed "
+        "schedules (crashed claimers' left-over pending claims + non-empty release + restart; half-done release + restart; release "
+        "paused before each write x same-host re-confirm paused before each call x foreign claim x re-confirmer dies or not), plus seeded "
         "concurrent runs; non-trivial = two owners tried to claim the same block, or a client crashed")
 
 
@@ -20,9 +22,20 @@ def run(ctx):
     _ipam.handle_soft(ctx, P, **orphan)
     if ctx.violations:
         return
+    # directed three-actor / crash-and-restart histories (Dir_IPAM: scripts executed by TLC through I_IPAM, then
+    # replayed through the gate): left-over pending claims of crashed hosts + a non-empty affinity release
+    # (block without affinity) + AutoAssign of the restarted hosts; a half-done release + AutoAssign of the same
+    # host; ReleaseAffinity(mustBeEmpty) paused before each of its writes x a same-host AutoAssign re-confirming
+    # (getBlockFromAffinity) paused before each of its calls x a foreign claim x the re-confirmer dying or not
+    P, _ = _ipam.leg(ctx, BASE, "directed",
+                     gen={"module": "Dir_IPAM", "cfg": "Dir_c22.cfg", "workers": 1, "timeout": 600},
+                     nontrivial=_ipam.contended_claim, rule=RULE)
+    _ipam.handle_soft(ctx, P, **orphan)
+    if ctx.violations or ctx.quick:
+        return
     P, _ = _ipam.leg(ctx, BASE, "tlc-walks",
-              gen={"module": "Gen_IPAM", "cfg": "Gen_sim_c22.cfg", "simulate": {"num": 40, "depth": 120},
-                   "thorough_simulate": {"num": 1000, "depth": 120}, "timeout": 600, "thorough_timeout": 1500},
+              gen={"module": "Gen_IPAM", "cfg": "Gen_sim_c22.cfg", "simulate": {"num": 1000, "depth": 120},
+                   "timeout": 1500},
               nontrivial=_ipam.contended_claim, rule=RULE)
     _ipam.handle_soft(ctx, P, **orphan)
 
